@@ -55,3 +55,28 @@ Theorem C17_fake_masking_key_from_tape :
     ru_client_s_pk rec = kp_pk (ss_fake_keypair setup) /\ ru_envelope rec = envelope_dummy CS.
 Proof. exact @fake_masking_key_is_tape. Qed.
 Print Assumptions C17_fake_masking_key_from_tape.
+
+
+(* the OPRF blind (per group): the reduction of ONE tape chunk - the first that yields a valid scalar - preceded
+   only by rejected chunks; the rest of the tape is returned untouched *)
+From Coq Require Import ZArith.
+From OKE Require Import Field Weierstrass Curve25519 BlindLayout.
+Theorem C17_blind_layout_nist :
+  forall (C : wcurve) tape k rest,
+    w_random_scalar C tape = Some (k, rest) ->
+    exists rejected accepted,
+      tape = (concat rejected ++ accepted ++ rest)%list /\
+      Forall (w_chunk_rejected C) rejected /\
+      length accepted = w_Nfe C /\ k = bytes_to_Z_be accepted /\ (0 < k < w_n C)%Z.
+Proof. exact w_blind_layout. Qed.
+Print Assumptions C17_blind_layout_nist.
+
+Theorem C17_blind_layout_ristretto :
+  forall tape k rest,
+    r_random_scalar tape = Some (k, rest) ->
+    exists rejected accepted,
+      tape = (concat rejected ++ accepted ++ rest)%list /\
+      Forall r_chunk_rejected rejected /\
+      length accepted = 64 /\ k = (bytes_to_Z_le accepted mod ell)%Z /\ k <> 0%Z.
+Proof. exact r_blind_layout. Qed.
+Print Assumptions C17_blind_layout_ristretto.
